@@ -28,7 +28,7 @@ def from_units(u):
 
 
 def jval(v):
-    return json.dumps(v, sort_keys=True, separators=(",", ":"))
+    return json.dumps(v, sort_keys=True, separators=(",", ":"), ensure_ascii=False)
 
 
 class SchemaInfo:
